@@ -1,14 +1,24 @@
 package c05
 
 // C05: only callbacks to outstanding tasks have any effect.
-// State machine over 2-3 agents registered through the real agent endpoint, with a
-// tsx.Recorder as teamserver and a private loot tree; the model is the set of
-// outstanding request ids per agent.
+// State machine over a forest of 2-4 agents (roots registered through the real agent
+// endpoint, SMB children linked through a real SMB_CONNECT callback of their parent, up
+// to two levels deep), with a tsx.Recorder as teamserver and a private loot tree.
+//
+// Model: per agent X, the set of request ids of tasks that were ISSUED TO X (operator
+// tasks and the mem-file chunk tasks of its uploads) and not yet completed.  Things the
+// teamserver queues on its own - relay jobs (SOCKS writes, request id 0) and the
+// COMMAND_PIVOT jobs that wrap a descendant's task for its ancestors - are not tasks with
+// a request id and add nothing to anybody's outstanding set.  The statement's exemption
+// for relay traffic is by callback KIND (socket / pivot), not by request id, so id 0
+// never becomes an acceptable id for any other kind.
 
 import (
+	"encoding/base64"
 	"fmt"
 	"os"
 	"sort"
+	"strconv"
 	"strings"
 	"testing"
 
@@ -23,7 +33,7 @@ import (
 )
 
 type OpE struct {
-	Kind    string `json:"kind"` // issue handout callback
+	Kind    string `json:"kind"` // issue upload relay handout callback
 	Agent   int    `json:"agent"`
 	Cmd     int    `json:"cmd,omitempty"`     // issue: index into issueCmds
 	Src     string `json:"src,omitempty"`     // callback: outstanding completed foreign never zero
@@ -36,29 +46,50 @@ type OpE struct {
 }
 
 type CaseE struct {
-	Agents int   `json:"agents"`
-	Logs   bool  `json:"logs"` // SendLogs: agent log forwarding
-	Ops    []OpE `json:"ops"`
+	Agents  int   `json:"agents"`
+	Parents []int `json:"parents,omitempty"` // Parents[i] < i is the SMB parent of agent i, -1 for a directly connected agent; absent = all direct
+	Logs    bool  `json:"logs"`              // SendLogs: agent log forwarding
+	Ops     []OpE `json:"ops"`
 }
 
 var srcsE = []string{"outstanding", "completed", "foreign", "never", "zero"}
 
 func genE(t *rapid.T) CaseE {
 	var c CaseE
-	c.Agents = 2 + agentfx.Bits(t, "agents", 1)
+	c.Agents = 2 + agentfx.Bits(t, "agents", 2)%3
 	c.Logs = agentfx.Weighted(t, "logs", 3, 1) == 1
+	depth := make([]int, c.Agents)
+	for i := 0; i < c.Agents; i++ {
+		p := -1
+		if i > 0 && agentfx.Weighted(t, "child", 2, 3) == 1 {
+			p = agentfx.Bits(t, "parent", 2) % i
+			if depth[p] >= 2 {
+				p = -1
+			}
+		}
+		if p >= 0 {
+			depth[i] = depth[p] + 1
+		}
+		c.Parents = append(c.Parents, p)
+	}
 	n := rapid.IntRange(1, 30).Draw(t, "nops")
 	for i := 0; i < n; i++ {
-		op := OpE{Agent: rapid.IntRange(0, c.Agents-1).Draw(t, "agent")}
-		switch agentfx.Weighted(t, "kind", 30, 8, 62) {
+		op := OpE{Agent: agentfx.Bits(t, "agent", 2) % c.Agents}
+		switch agentfx.Weighted(t, "kind", 26, 4, 4, 6, 60) {
 		case 0:
 			op.Kind = "issue"
 			op.Cmd = rapid.IntRange(0, len(issueCmds)-1).Draw(t, "cmd")
 		case 1:
+			op.Kind = "upload"
+			op.N = rapid.Uint32Range(0, 300).Draw(t, "n")
+		case 2:
+			op.Kind = "relay"
+			op.N = rapid.Uint32Range(1, 64).Draw(t, "n")
+		case 3:
 			op.Kind = "handout"
 		default:
 			op.Kind = "callback"
-			op.Src = srcsE[agentfx.Weighted(t, "src", 40, 22, 22, 10, 6)]
+			op.Src = srcsE[agentfx.Weighted(t, "src", 34, 18, 22, 8, 18)]
 			op.Pick = rapid.IntRange(0, 7).Draw(t, "pick")
 			op.Variant = agentfx.Bits(t, "variant", 7)
 			op.AnyKind = agentfx.Weighted(t, "anykind", 3, 1) == 1
@@ -76,13 +107,15 @@ func genE(t *rapid.T) CaseE {
 type taskM struct {
 	id     uint32
 	cmd    uint32
-	handed bool
 	doneBy string // name of the final kind whose callback completed it
 }
 
 type agentM struct {
-	out  []*taskM // issued and not completed, in issue order
+	out  []*taskM // issued to this agent and not completed, in issue order
 	done []*taskM
+	// what the teamserver queued on its own that involves this agent (never outstanding ids)
+	ownRelay  bool // a relay job (request id 0) was queued for this agent itself
+	relayedTo bool // something was queued for a descendant, i.e. wrapped pivot jobs passed through this agent
 }
 
 func (m *agentM) find(id uint32) *taskM {
@@ -94,11 +127,20 @@ func (m *agentM) find(id uint32) *taskM {
 	return nil
 }
 
+func (m *agentM) ctx() string {
+	switch {
+	case m.ownRelay:
+		return "own-relay-job"
+	case m.relayedTo:
+		return "relayed-for-descendant"
+	}
+	return "plain"
+}
+
 // ---------------------------------------------------------------- observation
 
 type snap struct {
 	tasks   string
-	tree    string
 	session string
 }
 
@@ -113,23 +155,66 @@ func taskIDs(a *agent.Agent) string {
 func sessionPrint(a *agent.Agent) string {
 	info := *a.Info
 	info.LastCallIn = "" // bookkeeping of every request
-	return fmt.Sprintf("%s|%v|%s|%+v|%x|%x|dl=%d|bof=%d|pf=%d|links=%d", a.NameID, a.Active, a.Reason, info, a.Encryption.AESKey, a.Encryption.AESIv, len(a.Downloads), len(a.BofCallbacks), len(a.PortFwds), len(a.Pivots.Links))
+	par := ""
+	if a.Pivots.Parent != nil {
+		par = a.Pivots.Parent.NameID
+	}
+	return fmt.Sprintf("%s|%v|%s|%+v|%x|%x|dl=%d|bof=%d|pf=%d|links=%d|parent=%s", a.NameID, a.Active, a.Reason, info, a.Encryption.AESKey, a.Encryption.AESIv, len(a.Downloads), len(a.BofCallbacks), len(a.PortFwds), len(a.Pivots.Links), par)
 }
 
 type worldE struct {
-	rec  *tsx.Recorder
-	ep   *agentfx.Endpoint
-	ses  []*agentfx.Session
-	mod  []*agentM
-	loot string
-	base []map[string]int // per agent: events of a request that carries no callback and hands out nothing
+	rec    *tsx.Recorder
+	ep     *agentfx.Endpoint
+	ses    []*agentfx.Session
+	mod    []*agentM
+	parent []int
+	loot   string
+	base   []map[string]int // per agent: events of a request from it that carries no callback and hands out nothing
 }
 
-func evKey(e tsx.Event) string { return e.Kind + "@" + e.Agent }
+// evKey identifies an event for the bookkeeping subtraction.  A relaying hop prints an
+// empty console message for every SMB_COMMAND it forwards (TaskDispatch COMMAND_PIVOT
+// ends with AgentConsole(Message) whatever happened), so console events carry their text.
+func evKey(e tsx.Event) string {
+	if e.Kind == "console" {
+		return "console@" + e.Agent + ":" + e.Out["Type"] + ":" + e.Out["Message"] + ":" + e.Out["Output"]
+	}
+	return e.Kind + "@" + e.Agent
+}
 
-func (w *worldE) take(g int) (all []tsx.Event) { return w.rec.Take() }
+// chain returns the agents from the root down to g.
+func (w *worldE) chain(g int) []int {
+	var c []int
+	for x := g; x >= 0; x = w.parent[x] {
+		c = append([]int{x}, c...)
+	}
+	return c
+}
 
-// effects removes the per-request bookkeeping events of agent g from ev.
+func (w *worldE) root(g int) int { return w.chain(g)[0] }
+
+// post sends one batch of agent g (GET_JOB header + subs): directly for a root, wrapped
+// hop by hop in COMMAND_PIVOT / SMB_COMMAND callbacks of its ancestors otherwise
+// (Pivot.c PivotPush: [DEMON_PIVOT_SMB_COMMAND][bytes: the child's package]).
+func (w *worldE) post(g int, subs []demonref.Sub) (int, []demonref.Task, bool) {
+	ch := w.chain(g)
+	s := w.ses[g]
+	pkg := demonref.Batch(s.ID, 0, subs, s.Key, s.IV)
+	for j := len(ch) - 2; j >= 0; j-- {
+		h := w.ses[ch[j]]
+		body := (&demonref.Enc{}).Int32(demonref.PivotSmbCmd).Bytes(pkg).B
+		pkg = demonref.Batch(h.ID, 0, []demonref.Sub{{Cmd: demonref.CmdPivot, ReqID: 0, Body: body}}, h.Key, h.IV)
+	}
+	code, resp := w.ep.Serve(pkg)
+	if code != 200 {
+		return code, nil, false
+	}
+	r := w.ses[ch[0]]
+	tasks, ok := demonref.ReadTasks(resp, r.Key, r.IV, 0, "")
+	return code, tasks, ok
+}
+
+// effects removes the per-request bookkeeping events of a request from agent g.
 func (w *worldE) effects(g int, ev []tsx.Event) []tsx.Event {
 	left := map[string]int{}
 	for k, v := range w.base[g] {
@@ -146,13 +231,12 @@ func (w *worldE) effects(g int, ev []tsx.Event) []tsx.Event {
 	return out
 }
 
-func (w *worldE) snapAll() []snap {
-	tree := tsx.TreeString(w.loot)
+func (w *worldE) snapAll() ([]snap, string) {
 	var s []snap
 	for _, x := range w.ses {
-		s = append(s, snap{tasks: taskIDs(x.A), tree: tree, session: sessionPrint(x.A)})
+		s = append(s, snap{tasks: taskIDs(x.A), session: sessionPrint(x.A)})
 	}
-	return s
+	return s, tsx.TreeString(w.loot)
 }
 
 func describe(ev []tsx.Event) string {
@@ -167,8 +251,8 @@ func describe(ev []tsx.Event) string {
 	return strings.Join(s, ", ")
 }
 
-// diff says what changed between two world snapshots (all agents), "" if nothing.
-func diffSnaps(a, b []snap) string {
+// diffSnaps says what changed between two world snapshots (all agents), "" if nothing.
+func diffSnaps(a, b []snap, ta, tb string) string {
 	var d []string
 	for i := range a {
 		if a[i].tasks != b[i].tasks {
@@ -178,7 +262,7 @@ func diffSnaps(a, b []snap) string {
 			d = append(d, fmt.Sprintf("agent %d session data changed", i))
 		}
 	}
-	if a[0].tree != b[0].tree {
+	if ta != tb {
 		d = append(d, "loot tree changed")
 	}
 	return strings.Join(d, "; ")
@@ -209,14 +293,6 @@ func checkE(c CaseE) (viol *core.Violation) {
 		return core.V("harness|fixture", "%v", err)
 	}
 	w.ep = ep
-	for i := 0; i < c.Agents; i++ {
-		s, err := ep.Register(w.rec, 0x0c050001+uint32(i)*0x10)
-		if err != nil {
-			return core.V("harness|fixture", "%v", err)
-		}
-		w.ses = append(w.ses, s)
-		w.mod = append(w.mod, &agentM{})
-	}
 	defer func() {
 		// downloads keep their loot files open
 		for _, s := range w.ses {
@@ -227,17 +303,50 @@ func checkE(c CaseE) (viol *core.Violation) {
 			}
 		}
 	}()
+
+	// ---- build the forest
+	for i := 0; i < c.Agents; i++ {
+		p := -1
+		if i < len(c.Parents) && c.Parents[i] >= 0 && c.Parents[i] < i {
+			p = c.Parents[i]
+		}
+		id := 0x0c050001 + uint32(i)*0x10
+		if p < 0 {
+			s, err := ep.Register(w.rec, id)
+			if err != nil {
+				return core.V("harness|fixture", "%v", err)
+			}
+			w.ses = append(w.ses, s)
+		} else {
+			// Pivot.c PivotAdd / CommandPivot SMB_CONNECT: [DEMON_PIVOT_SMB_CONNECT][Success=1][bytes: the
+			// child's DEMON_INIT package read from the pipe], sent by the parent
+			key, iv := agentfx.KeyFor(id)
+			init := agentfx.Meta(id).InitPackage(id, key, iv)
+			body := (&demonref.Enc{}).Int32(demonref.PivotSmbCon).Int32(1).Bytes(init).B
+			code, _, ok := w.post(p, []demonref.Sub{{Cmd: demonref.CmdPivot, ReqID: 0, Body: body}})
+			a := w.rec.AgentInstance(int(id))
+			if code != 200 || !ok || a == nil || a.Pivots.Parent != w.ses[p].A {
+				return core.V("harness|fixture", "SMB connect of agent %d below agent %d failed (HTTP %d)", i, p, code)
+			}
+			w.ses = append(w.ses, &agentfx.Session{ID: id, Key: key, IV: iv, A: a})
+		}
+		w.parent = append(w.parent, p)
+		w.mod = append(w.mod, &agentM{})
+	}
 	w.rec.Take()
-	// calibration: what does a request without callbacks and with nothing queued record?
+	// calibration: what does a request of agent g without callbacks and with nothing queued record?
 	for g := range w.ses {
-		code, tasks, ok := w.ep.CheckIn(w.ses[g], true, nil)
+		code, tasks, ok := w.post(g, nil)
 		if code != 200 || !ok || !agentfx.IsNoJob(tasks) {
-			return core.V("harness|calibration", "plain check-in of a fresh agent: HTTP %d", code)
+			return core.V("harness|calibration", "plain check-in of fresh agent %d: HTTP %d", g, code)
 		}
 		b := map[string]int{}
 		for _, e := range w.rec.Take() {
-			if e.Kind != "update" && e.Kind != "lasttime" {
-				return core.V("harness|calibration", "a body-less check-in records an unexpected %q event", e.Kind)
+			switch {
+			case e.Kind == "update" || e.Kind == "lasttime":
+			case e.Kind == "console" && e.Out["Message"] == "" && e.Out["Output"] == "" && w.parent[g] >= 0:
+			default:
+				return core.V("harness|calibration", "a body-less check-in of agent %d records an unexpected %q event", g, e.Kind)
 			}
 			b[evKey(e)]++
 		}
@@ -245,36 +354,34 @@ func checkE(c CaseE) (viol *core.Violation) {
 	}
 
 	nextID := uint32(0x4d000001)
-	handout := func(g int) *core.Violation {
-		m := w.mod[g]
-		pending := false
-		for _, t := range m.out {
-			if !t.handed {
-				pending = true
-			}
-		}
-		if !pending {
-			return nil
-		}
+	known := map[uint32]bool{} // every id ever issued to anybody
+	// drain empties the queue of g's root, so that a following request hands out nothing.
+	// Tasks seen on the wire that the model does not know yet are the mem-file chunk tasks of
+	// an upload to that (directly connected) agent: they were issued to it.
+	drain := func(g int) *core.Violation {
+		r := w.root(g)
 		for guard := 0; guard < 64; guard++ {
-			code, tasks, ok := w.ep.CheckIn(w.ses[g], true, nil)
+			code, tasks, ok := w.post(r, nil)
 			w.rec.Take()
 			if code != 200 || !ok {
 				return core.V("harness|handout", "hand-out check-in answered HTTP %d", code)
 			}
 			if agentfx.IsNoJob(tasks) {
-				break
+				return nil
 			}
 			for _, t := range tasks {
-				if x := m.find(t.ReqID); x != nil {
-					x.handed = true
+				if t.Cmd == agent.COMMAND_MEM_FILE && !known[t.ReqID] && t.ReqID != 0 {
+					known[t.ReqID] = true
+					w.mod[r].out = append(w.mod[r].out, &taskM{id: t.ReqID, cmd: agent.COMMAND_MEM_FILE})
 				}
 			}
 		}
-		for _, t := range m.out {
-			t.handed = true // completed-before-hand-out ids are simply gone from the queue's point of view
+		return core.V("harness|handout", "queue of agent %d does not drain", r)
+	}
+	markRelayed := func(g int) {
+		for x := w.parent[g]; x >= 0; x = w.parent[x] {
+			w.mod[x].relayedTo = true
 		}
-		return nil
 	}
 
 	for i, op := range c.Ops {
@@ -286,17 +393,48 @@ func checkE(c CaseE) (viol *core.Violation) {
 			cmd := issueCmds[op.Cmd%len(issueCmds)]
 			id := nextID
 			nextID += 0x11
+			known[id] = true
 			// what dispatch.go does after TaskPrepare; the task body is irrelevant here
 			ses.A.AddJobToQueue(agent.Job{RequestID: id, Command: cmd, Data: []interface{}{}})
 			m.out = append(m.out, &taskM{id: id, cmd: cmd})
+			markRelayed(g)
+		case "upload":
+			// operator fs upload: TaskPrepare queues the mem-file chunk tasks (random request ids)
+			// itself, dispatch.go queues the command.  Only for directly connected agents, where
+			// the chunk ids can be learnt from the wire.
+			if w.parent[g] >= 0 {
+				continue
+			}
+			id := nextID
+			nextID += 0x11
+			known[id] = true
+			content := []byte(strings.Repeat("u", int(op.N)))
+			info := map[string]interface{}{
+				"TaskID": fmt.Sprintf("%08X", id), "CommandLine": "upload", "DemonID": ses.A.NameID,
+				"CommandID": strconv.Itoa(agent.COMMAND_FS), "SubCommand": "upload",
+				"Arguments": base64.StdEncoding.EncodeToString([]byte("C:\\up.bin")) + ";" + base64.StdEncoding.EncodeToString(content),
+			}
+			msg := map[string]string{}
+			job, err := ses.A.TaskPrepare(agent.COMMAND_FS, info, &msg, "client", w.rec)
+			if err != nil || job == nil || job.RequestID != id {
+				return core.V("harness|upload", "TaskPrepare(fs upload) failed: %v", err)
+			}
+			ses.A.AddJobToQueue(*job)
+			m.out = append(m.out, &taskM{id: id, cmd: agent.COMMAND_FS})
+			w.rec.Take()
+		case "relay":
+			// what the SOCKS reader goroutine queues (demons.go, socks add handler): no request id
+			ses.A.AddJobToQueue(agent.Job{Command: agent.COMMAND_SOCKET, Data: []interface{}{agent.SOCKET_COMMAND_WRITE, int32(i + 1), []byte(strings.Repeat("r", int(op.N)))}})
+			m.ownRelay = true
+			markRelayed(g)
 		case "handout":
-			if v := handout(g); v != nil {
+			if v := drain(g); v != nil {
 				return v
 			}
 		case "callback":
-			// everything queued is handed out first, so that the request below carries the
-			// callback only and its recorded events are bookkeeping + the callback's effects
-			if v := handout(g); v != nil {
+			// everything queued in g's tree is handed out first, so that the request below carries
+			// the callback only and its recorded events are bookkeeping + the callback's effects
+			if v := drain(g); v != nil {
 				return v
 			}
 			// ---- choose id and kind
@@ -321,21 +459,41 @@ func checkE(c CaseE) (viol *core.Violation) {
 					id, viaCmd, haveCmd, doneBy = t.id, t.cmd, true, t.doneBy
 				}
 			case "foreign":
-				var cand []*taskM
+				// ids outstanding elsewhere; those of g's own descendants (whose wrapped tasks
+				// passed through g) first
+				var desc, other []*taskM
 				for h := range w.mod {
-					if h != g {
-						cand = append(cand, w.mod[h].out...)
+					if h == g {
+						continue
+					}
+					below := false
+					for x := w.parent[h]; x >= 0; x = w.parent[x] {
+						if x == g {
+							below = true
+						}
+					}
+					if below {
+						desc = append(desc, w.mod[h].out...)
+					} else {
+						other = append(other, w.mod[h].out...)
 					}
 				}
+				cand := append(desc, other...)
 				if len(cand) == 0 {
 					src = "never"
 				} else {
 					t := cand[op.Pick%len(cand)]
 					id, viaCmd, haveCmd = t.id, t.cmd, true
+					if op.Pick%len(cand) < len(desc) {
+						src = "descendant"
+					}
 				}
 			}
 			if src == "never" {
 				id = 0x7e000000 + uint32(i)*0x101 + op.N%0x100
+				for known[id] {
+					id++
+				}
 			}
 			if src == "zero" {
 				id = 0
@@ -351,16 +509,20 @@ func checkE(c CaseE) (viol *core.Violation) {
 			sub := demonref.Sub{Cmd: k.Cmd, ReqID: id, Body: body}
 			exempt := k.Relay || (k.Beacon && c.Logs)
 			outstanding := src == "outstanding"
+			unknownSig := func() string {
+				return "unknown-id-accepted|src=" + src + "|ctx=" + m.ctx() + "|kind=" + kindClass(k)
+			}
 
 			send := func() (eff []tsx.Event, change string, v *core.Violation) {
-				before := w.snapAll()
+				before, tb := w.snapAll()
 				w.rec.Take()
-				code, tasks, ok := w.ep.CheckIn(ses, true, []demonref.Sub{sub})
+				code, tasks, ok := w.post(g, []demonref.Sub{sub})
 				ev := w.rec.Take()
 				if code != 200 || !ok || !agentfx.IsNoJob(tasks) {
 					return nil, "", core.V("harness|callback-request", "callback request answered HTTP %d (decodable=%v, %d tasks)", code, ok, len(tasks))
 				}
-				return w.effects(g, ev), diffSnaps(before, w.snapAll()), nil
+				after, ta := w.snapAll()
+				return w.effects(g, ev), diffSnaps(before, after, tb, ta), nil
 			}
 
 			// white-box, for the statistics only: does the implementation still hold the id?
@@ -371,6 +533,10 @@ func checkE(c CaseE) (viol *core.Violation) {
 				return v
 			}
 			had := len(eff) > 0 || change != ""
+			via := "direct"
+			if w.parent[g] >= 0 {
+				via = "relayed"
+			}
 			switch {
 			case exempt:
 				if k.Relay {
@@ -383,6 +549,7 @@ func checkE(c CaseE) (viol *core.Violation) {
 				if had {
 					lastE.accEffect++
 					lastE.labels["accepted:"+k.Name] = true
+					lastE.labels["accepted-"+via] = true
 				} else if implHas {
 					lastE.accNoEffect++
 					lastE.labels["accepted-no-effect:"+k.Name] = true
@@ -403,10 +570,14 @@ func checkE(c CaseE) (viol *core.Violation) {
 			default:
 				// (1) no effect at all
 				lastE.rejected++
-				if !k.Quiet && (src == "completed" || src == "foreign") {
+				if !k.Quiet && (src == "completed" || src == "foreign" || src == "descendant") {
 					lastE.rejectedPlausible[src+"/"+kindClass(k)] = true
 				}
 				lastE.labels["rejected:"+src] = true
+				lastE.labels["rejected-"+via] = true
+				if src == "zero" {
+					lastE.labels["zero-probe:"+m.ctx()] = true
+				}
 				if had {
 					what := describe(eff)
 					if change != "" {
@@ -418,7 +589,7 @@ func checkE(c CaseE) (viol *core.Violation) {
 					if src == "completed" {
 						return core.V("completed-id-accepted|completed-by="+doneBy, "agent %d: request id %#x was completed by its final %s callback, yet a later %s callback carrying it was acted upon: %s", g, id, doneBy, k.Name, what)
 					}
-					return core.V("unknown-id-accepted|src="+src+"|kind="+kindClass(k), "agent %d: a %s callback with request id %#x (%s) was acted upon: %s", g, k.Name, id, srcText(src), what)
+					return core.V(unknownSig(), "agent %d (%s, %s): a %s callback with request id %#x (%s) was acted upon: %s", g, via, ctxText(m.ctx()), k.Name, id, srcText(src), what)
 				}
 			}
 
@@ -442,7 +613,7 @@ func checkE(c CaseE) (viol *core.Violation) {
 					if src == "completed" {
 						return core.V("completed-id-accepted|completed-by="+doneBy, "agent %d: replay of a %s callback with completed request id %#x was acted upon: %s", g, k.Name, id, what)
 					}
-					return core.V("unknown-id-accepted|src="+src+"|kind="+kindClass(k), "agent %d: replay of a %s callback with request id %#x (%s) was acted upon: %s", g, k.Name, id, srcText(src), what)
+					return core.V(unknownSig(), "agent %d (%s, %s): replay of a %s callback with request id %#x (%s) was acted upon: %s", g, via, ctxText(m.ctx()), k.Name, id, srcText(src), what)
 				}
 				if outstanding && k.Final && !stillOut {
 					lastE.labels["final-replayed:"+k.Name] = true
@@ -457,12 +628,24 @@ func srcText(src string) string {
 	switch src {
 	case "foreign":
 		return "outstanding at another agent only"
+	case "descendant":
+		return "outstanding at an SMB descendant of this agent only"
 	case "never":
 		return "never issued"
 	case "zero":
-		return "zero, never issued"
+		return "zero, never issued to anybody"
 	}
 	return src
+}
+
+func ctxText(ctx string) string {
+	switch ctx {
+	case "own-relay-job":
+		return "a relay job without request id had been queued for it"
+	case "relayed-for-descendant":
+		return "wrapped pivot jobs for a descendant had passed through its queue"
+	}
+	return "nothing but its own tasks ever queued"
 }
 
 // kindClass groups kinds for signatures and fingerprints.
@@ -506,20 +689,38 @@ func classifyE(c CaseE) core.Class {
 	if o.replays > 0 {
 		cl.Labels = append(cl.Labels, "replay")
 	}
-	cl.Labels = append(cl.Labels, fmt.Sprintf("agents:%d", c.Agents), fmt.Sprintf("logs:%v", c.Logs))
+	maxDepth, children := 0, 0
+	depth := make([]int, c.Agents)
+	for i := 0; i < c.Agents && i < len(c.Parents); i++ {
+		if p := c.Parents[i]; p >= 0 && p < i {
+			depth[i] = depth[p] + 1
+			children++
+			if depth[i] > maxDepth {
+				maxDepth = depth[i]
+			}
+		}
+	}
+	zero := []string{}
+	for _, z := range []string{"plain", "own-relay-job", "relayed-for-descendant"} {
+		if o.labels["zero-probe:"+z] {
+			zero = append(zero, z[:3])
+		}
+	}
+	cl.Labels = append(cl.Labels, fmt.Sprintf("agents:%d", c.Agents), fmt.Sprintf("logs:%v", c.Logs), fmt.Sprintf("pivot-depth:%d", maxDepth))
 	cl.NonTrivial = len(plaus) > 0
-	cl.Fingerprint = fmt.Sprintf("ag=%d|logs=%v|%s|acc=%v|rep=%v", c.Agents, c.Logs, strings.Join(plaus, ","), o.accEffect > 0, o.replays > 0)
+	cl.Fingerprint = fmt.Sprintf("ag=%d|d=%d|logs=%v|%s|zero=%s|acc=%v|rep=%v", c.Agents, maxDepth, c.Logs, strings.Join(plaus, ","), strings.Join(zero, "+"), o.accEffect > 0, o.replays > 0)
 	return cl
 }
 
 func TestC05a(t *testing.T) {
 	core.Run(t, core.Spec[CaseE]{
 		Property: "C05", Sub: "a",
-		Rule: fmt.Sprintf("histories of 1-30 operations over 2-3 agents (registered through the real agent endpoint, tsx.Recorder as teamserver, private loot tree, SendLogs on in 1/4 of the cases): issue a task (AddJobToQueue with a fresh request id, one of %d commands), hand-out check-in, callback = one of %d well-formed callback kinds (payloads as Package.c builds them) carrying an id from {own outstanding, own completed, outstanding at another agent, never issued, 0}, optionally replayed byte for byte. Oracle: (1) a callback whose id is not outstanding at that agent (kind not socket/pivot, not beacon-output with SendLogs) records nothing beyond the update/lasttime bookkeeping of a body-less check-in, leaves every agent's outstanding-id list, session data and the loot tree unchanged; (2) after a callback from the finality table was processed with an outstanding id, the same package again, and any later callback with that id, has no effect. Non-trivial: a rejected callback of an effectful kind whose id was completed or foreign; distinct = (#agents, SendLogs, set of rejected (source, kind class), accepted seen, replay seen)", len(issueCmds), len(kinds)),
+		Rule: fmt.Sprintf("histories of 1-30 operations over a forest of 2-4 agents (roots registered through the real agent endpoint, SMB children linked by a real SMB_CONNECT callback of their parent, depth <= 2; tsx.Recorder as teamserver, private loot tree, SendLogs on in 1/4 of the cases): issue a task to any agent (AddJobToQueue with a fresh request id, one of %d commands; for a child it is wrapped into COMMAND_PIVOT jobs of its ancestors), operator fs-upload (mem-file chunk tasks, direct agents), relay job without request id (SOCKS write), hand-out, callback = one of %d well-formed callback kinds (payloads as Package.c builds them) sent by any agent - directly or relayed hop by hop as COMMAND_PIVOT/SMB_COMMAND - carrying an id from {own outstanding, own completed, outstanding at a descendant / at another agent, never issued, 0}, optionally replayed byte for byte. Oracle: (1) a callback whose id was not issued to THAT agent or is completed (kind not socket/pivot, not beacon-output with SendLogs) records nothing beyond the bookkeeping of a body-less request on the same path, leaves every agent's outstanding-id list, session data and the loot tree unchanged - whatever else the teamserver queued for or through that agent; (2) after a callback from the finality table was processed with an outstanding id, the same package again, and any later callback with that id, has no effect. Non-trivial: a rejected callback of an effectful kind whose id was completed, foreign or a descendant's; distinct = (#agents, pivot depth, SendLogs, set of rejected (source, kind class), contexts of id-0 probes, accepted seen, replay seen)", len(issueCmds), len(kinds)),
 		Gen:  genE, Check: checkE, Classify: classifyE,
 		Assumptions: []string{
 			"finality table: a callback kind ends its task only where the Demon handler (payloads/Demon/src/core/Command.c) transmits exactly one package of that kind as its last action and starts nothing that reports later; streaming/asynchronous kinds never complete a task in the model",
-			"a task counts as outstanding from the moment it is queued; callbacks are only generated for ids that were handed out",
+			"outstanding at agent X = request ids of tasks issued TO X (operator tasks, mem-file chunk tasks of its uploads) and not completed; relay jobs (request id 0) and wrapped pivot jobs are queued by the teamserver itself, reserve no request id and make nothing acceptable: the statement exempts relay traffic by callback kind, not by id",
+			"a task counts as outstanding from the moment it is queued; callbacks are only generated after everything queued in the sender's tree was handed out",
 			"only COMMAND_SOCKET dials out (PortFwdOpen) and the statement exempts it, so the outbound-connection clause has no non-exempt carrier and is not probed with a listener",
 			"callback payloads are well-formed; malformed ones belong to C01",
 		},
